@@ -24,6 +24,10 @@ def gen(rng, n):
         lay = scen.Layout(rng)
         nodes, ents, mal = scen.populate(rng, lay)
         if rng.random() < 0.2:
+            # what file managers keep next to files/ and info/ (the spec's directorysizes cache): a dry run and the real run treat it alike
+            for t0 in [lay.home_trash] + [lay.top2(vv) for vv in lay.all_vols if lay.top[vv][1] == 'dir']:
+                nodes.append(['f', t0 + '/directorysizes', '4096 1700000000 somedir\n'])
+        if rng.random() < 0.2:
             # an entry whose name is not valid UTF-8 (a byte string to the file system): what --dry-run prints must still be its path
             nm = rng.choice(['caf\udce9.txt', '\udcff', 'x\udc80y'])
             nodes += scen.entry(lay.home_trash, nm, '/was/' + nm.replace('\udce9', 'e').replace('\udcff', 'f').replace('\udc80', 'g'),
@@ -99,8 +103,8 @@ def judge(run, scn, meta, res, section='state'):
         for p in before:
             if p not in after:
                 par = p.rsplit('/', 1)[0]
-                if par.endswith('/files') or par.endswith('/info'):
-                    removed_top.add(p)
+                if par.endswith('/files') or par.endswith('/info') or (par in after and par != ''):
+                    removed_top.add(p)            # the top-most removed things, wherever they were (an entry, or anything else of the trash directory)
         pr = set(engine.physical(before, p) for p in printed)
         missing = sorted(p for p in removed_top if p not in pr)
         survivors = sorted(p for p in pr if p in before and p in after)
